@@ -1,6 +1,7 @@
 import Gaftools.Props.TieA4
 import Gaftools.Props.TieA
 import Gaftools.Props.TieA11
+import Gaftools.Props.TieA10
 #print axioms Gaftools.TieA.mergeNodes_gen_eq_model
 #print axioms Gaftools.TieA.unstableCoords_gen
 #print axioms Gaftools.TieA.stableCoords_gen
@@ -21,3 +22,22 @@ import Gaftools.Props.TieA11
 #print axioms Gaftools.TieA.flatMap_dropLast_getLast
 #print axioms Gaftools.TieA.toStableS_gen
 #print axioms Gaftools.TieA.toStableS_emit
+#print axioms Gaftools.TieA.searchIv_range
+#print axioms Gaftools.TieA.pySlice_window
+#print axioms Gaftools.TieA.emit_fold
+#print axioms Gaftools.TieA.emit_foldr
+#print axioms Gaftools.TieA.convScanStep_gen
+#print axioms Gaftools.TieA.scanFold_gen
+#print axioms Gaftools.TieA.scanWindow_gen
+#print axioms Gaftools.TieA.go_cons
+#print axioms Gaftools.TieA.convTokStep_orient
+#print axioms Gaftools.TieA.convTokStep_item
+#print axioms Gaftools.TieA.itemStep_orient
+#print axioms Gaftools.TieA.tokItem_iv
+#print axioms Gaftools.TieA.convLoop_fold
+#print axioms Gaftools.TieA.toUnstable_gen
+#print axioms Gaftools.TieA.tokOk_ivToks
+#print axioms Gaftools.TieA.tokOk_render_ivs
+#print axioms Gaftools.TieA.tokOk_render_bare
+#print axioms Gaftools.TieA.toUnstable_gen_ivs
+#print axioms Gaftools.TieA.toUnstable_gen_bare
